@@ -40,6 +40,7 @@ BaseQ == [kind |-> "select", items |-> <<>>, hasexc |-> FALSE, exc |-> <<>>,
           hasgroup |-> FALSE, group |-> <<>>, assign |-> <<>>,
           mistake |-> "",      \* a mistake in the query TEXT the renderer realises: "where_assign" (= in WHERE), "two_selects", "bad_limit",
                                \* "unknown_except_field", "unknown_update_field", "update_not_first"  -> parsing error (C14)
+          init |-> "",         \* user init code: "" none, "def" defines the function udf used by <<"udf", e>>, "raise" raises
           iofault |-> ""]      \* inconsistent input: "hdr_len" (column-name list longer than the records), "join_hdr_missing" -> IO-handling error
 
 VARIABLES q, A, B, hasHdr, breakAt,        \* the case (setup)
@@ -74,7 +75,9 @@ HdrB == IF hasHdr /\ q.join # "none" THEN [k \in 1..WidthB |-> NameB(k)] ELSE <<
 RECURSIVE MaxLen(_)
 MaxLen(T) == IF T = <<>> THEN 0 ELSE LET m == MaxLen(Tail(T)) IN IF Len(T[1]) > m THEN Len(T[1]) ELSE m
 
-IsAggItem(it)    == it[1] = "agg" \/ (it[1] = "as" /\ it[2][1] = "agg")
+IsAggItem(it)    == it[1] \in {"agg", "aggplus", "aggattr"} \/ (it[1] = "as" /\ it[2][1] = "agg")
+\* an aggregate used inside a host-language expression (MAX(a2) + 1, MAX(a2).strip()): a mistake reported as a parsing error
+IsAggMisuse(it)  == it[1] \in {"aggplus", "aggattr"}
 IsUnnestItem(it) == it[1] = "unnest" \/ (it[1] = "as" /\ it[2][1] = "unnest")
 IsStarItem(it)   == it[1] \in {"star", "astar", "bstar"}
 CoreItem(it)     == IF it[1] = "as" THEN it[2] ELSE it
@@ -153,6 +156,9 @@ EvalItems(items, env, acc) ==
                                     IF IsErr(l) THEN [acc EXCEPT !.err = TRUE, !.cls = "runtime"]
                                     ELSE IF acc.nun >= 1 THEN [acc EXCEPT !.err = TRUE, !.cls = "parsing"]     \* Only one UNNEST is allowed
                                     ELSE [acc EXCEPT !.cells = Append(@, None), !.upos = Len(acc.cells) + 1, !.ulist = l[2], !.nun = 1]
+             [] it[1] \in {"aggplus", "aggattr"} -> LET v == Eval(it[3], env) IN
+                                 IF IsErr(v) THEN [acc EXCEPT !.err = TRUE, !.cls = "runtime"]
+                                 ELSE [acc EXCEPT !.err = TRUE, !.cls = "parsing"]       \* "Usage of RBQL aggregation functions inside Python expressions is not allowed"
              [] it[1] = "agg" -> LET v == Eval(it[3], env) IN
                                  IF IsErr(v) THEN [acc EXCEPT !.err = TRUE, !.cls = "runtime"]
                                  ELSE [acc EXCEPT !.cells = Append(@, v)]
@@ -440,6 +446,7 @@ Ref ==
     ELSE IF PreJoinParseError THEN [out |-> <<>>, err |-> ErrOf("parsing", 0, 0), stopunit |-> 0]
     ELSE IF q.join # "none" /\ FirstBadB # 0 THEN [out |-> <<>>, err |-> ErrOf("runtime", FirstBadB, -BadKeyFieldB(FirstBadB)), stopunit |-> 0]
     ELSE IF PostJoinParseError THEN [out |-> <<>>, err |-> ErrOf("parsing", 0, 0), stopunit |-> 0]
+    ELSE IF q.init = "raise" THEN [out |-> <<>>, err |-> ErrOf("unexpected", 0, 0), stopunit |-> 0]
     ELSE IF q.kind = "update" THEN LET r == UpdFold(1, 0, <<>>) IN [out |-> r.out, err |-> r.err, stopunit |-> 0]
     ELSE RefSelect
 
@@ -512,8 +519,14 @@ SetHeader == /\ pc = "header"
                 THEN /\ Fail("parsing", 0, 0) /\ UNCHANGED <<hdr, hdrset, mon>>
                 ELSE /\ hdr' = HeaderRef.names /\ hdrset' = HeaderRef.has
                      /\ mon' = MStep(mon, "set_header", TRUE)
-                     /\ pc' = "loop" /\ UNCHANGED err
+                     /\ pc' = "init" /\ UNCHANGED err
              /\ UNCHANGED <<q, A, B, hasHdr, breakAt, bi, maxlenB, nr, nu, pulled, matches, cands, candkey, uset, stop, sortbuf, seen, counts, nw, aggst, aggcols, aggkeys, fphase, fq, out, leafcalls>>
+
+\* the user's init code runs once, after the header has been handed over and before the first record is pulled;
+\* an exception there is reported as such ("Exception while executing user-provided init code"), class "unexpected"
+RunInit == /\ pc = "init"
+           /\ IF q.init = "raise" THEN Fail("unexpected", 0, 0) ELSE /\ pc' = "loop" /\ UNCHANGED err
+           /\ UNCHANGED <<q, A, B, hasHdr, breakAt, bi, maxlenB, nr, nu, pulled, matches, cands, candkey, uset, stop, sortbuf, seen, counts, nw, aggst, aggcols, aggkeys, fphase, fq, out, hdr, hdrset, leafcalls, mon>>
 
 \* ---- the leaf writer and the chain above it ----
 \* result of handing `row` to the leaf: [ok, out, leafcalls, mon]
@@ -672,7 +685,7 @@ Finish ==
               /\ UNCHANGED <<fphase, fq, stop, out, leafcalls, nw, seen, counts, sortbuf>>
     /\ UNCHANGED <<q, A, B, hasHdr, breakAt, bi, maxlenB, nr, nu, pulled, matches, cands, candkey, uset, aggst, aggcols, aggkeys, hdr, hdrset, err>>
 
-Next == GrowA \/ DoneA \/ GrowB \/ ChooseQ \/ Parse \/ BuildB \/ SetHeader \/ Pull \/ StartRecord \/ Match \/ Feed \/ Finish
+Next == GrowA \/ DoneA \/ GrowB \/ ChooseQ \/ Parse \/ BuildB \/ SetHeader \/ RunInit \/ Pull \/ StartRecord \/ Match \/ Feed \/ Finish
 Spec == Init /\ [][Next]_vars
 
 --------------------------------------------------------------------------
